@@ -88,4 +88,6 @@ def promoted_value(fn, expr):
                     return ("enum", rv["adt"], rv["variant"])
                 if rv["k"] == "use" and rv["op"].get("k") == "const" and "int" in rv["op"]:
                     return ("int", rv["op"]["int"])
+                if rv["k"] == "use" and rv["op"].get("k") == "const" and ("item" in rv["op"] or "bytes" in rv["op"]):
+                    return ("item", rv["op"].get("item"), rv["op"].get("bytes"))
     return None
